@@ -453,6 +453,13 @@ class TDMProgram(Program):
         Args:
             shots (int): the number of times the circuit should be repeated
         """
+        # reject the call before any state (lock, number of shots) is touched
+        if self.space_unrolled_circuit is not None:
+            raise ValueError(
+                "Program is space-unrolled and cannot be unrolled. Must be rolled (by calling the"
+                "'roll()' method) before unrolling."
+            )
+
         _locked = self.locked
         if self.locked:
             self.locked = False
@@ -465,12 +472,6 @@ class TDMProgram(Program):
 
         # store the number of shots in the unrolled circuit
         self._unrolled_shots = shots
-
-        if self.space_unrolled_circuit is not None:
-            raise ValueError(
-                "Program is space-unrolled and cannot be unrolled. Must be rolled (by calling the"
-                "'roll()' method) before unrolling."
-            )
 
         self._unroll_program(shots, space=False)
         self.locked = _locked
